@@ -29,6 +29,8 @@ func init() {
 		func(t *vcTrial) { vcRunC05(t, vc05Cfg{Network: "tcp", Handler: "none", OnConnect: true, Actors: []string{"fin"}}) },
 		func(t *vcTrial) { vcRunC05(t, vc05Cfg{Network: "unix", Handler: "none", OnConnect: true, Actors: []string{"input", "fin"}}) },
 		vcRunC05DetachThenClose,
+		vcRunC05RegisterFails,
+		vcRunC05RegisterFails,
 		func(t *vcTrial) { vcRunC05PrepareClose(t, 1, "tcp") },
 		func(t *vcTrial) { vcRunC05PrepareClose(t, 3, "unix") },
 	}
@@ -828,4 +830,80 @@ func vcRunC05DetachThenClose(t *vcTrial) {
 	}
 	t.Nontrivial = atomic.LoadInt32(&stage) == 2
 	t.Sig = "detach-then-close"
+}
+
+// vcRunC05RegisterFails: the accepted connection cannot be registered with its poller
+// (epoll_ctl(ADD) fails). The user has registered close callbacks in OnPrepare and holds the
+// Connection: the teardown netpoll performs on that error path must be the ordinary one - close
+// callbacks once and in order, descriptor closed once, slot released once - and a later Close by
+// the user must find nothing left to do.
+func vcRunC05RegisterFails(t *vcTrial) {
+	r := t.R
+	t.P("variant", "registration of an accepted connection fails")
+	audit := vcStartAudit()
+	var opPtr uintptr
+	var ownedSeq uint64
+	so := vcSrvOpts{Network: []string{"tcp", "unix"}[r.intn(2)], NCloseCb: 3}
+	so.OnPrepare = func(rec *vcConnRec) {
+		opPtr = vcObjID(vcInner(rec.Conn).operator)
+		ownedSeq = vfNextSeq()
+	}
+	so.OnRequest = func(ctx context.Context, rec *vcConnRec) error {
+		rec.Conn.Reader().Skip(rec.Conn.Reader().Len())
+		return nil
+	}
+	srv, err := vcStartServer(so)
+	if err != nil {
+		t.Inconclusive("server start: %v", err)
+		return
+	}
+	defer srv.Stop(3 * time.Second)
+	errno := []syscall.Errno{syscall.ENOMEM, syscall.ENOSPC, syscall.EPERM}[r.intn(3)]
+	fp := &vcFaultPlan{Rules: []*vcFaultRule{{Site: vfltEpollCtlAdd, Errno: errno, FD: -1, Count: 1}}}
+	vcSetFaults(fp)
+	defer vcSetFaults(nil)
+	cli, err := vcDialRaw(srv)
+	if err != nil {
+		t.Inconclusive("dial: %v", err)
+		return
+	}
+	defer cli.Close()
+	var rec *vcConnRec
+	for dl := time.Now().Add(3 * time.Second); rec == nil && time.Now().Before(dl); {
+		srv.recs.Range(func(k, v interface{}) bool { rec = v.(*vcConnRec); return false })
+		time.Sleep(100 * time.Microsecond)
+	}
+	vcSetFaults(nil)
+	if rec == nil || fp.Fired() == 0 {
+		t.Inconclusive("the failing registration did not happen (fired %d)", fp.Fired())
+		return
+	}
+	if !rec.waitClosed(3 * time.Second) {
+		if vcRunnerProgress(5, 5*time.Second) {
+			t.Violate("C05", "never_torn_down", "epoll_ctl(ADD) failed with %v for an accepted connection whose OnPrepare had registered close callbacks: the connection is not active (%v) but its close callbacks did not run (history %v)", errno, !rec.Conn.IsActive(), rec.history())
+		} else {
+			t.Inconclusive("close callbacks not seen, canary without progress")
+		}
+		return
+	}
+	time.Sleep(500 * time.Microsecond)
+	func() {
+		defer func() {
+			if p := recover(); p != nil {
+				t.Violate("C05", "close_panics", "Close() by the user after the failed registration had torn the connection down panicked: %v", p)
+			}
+		}()
+		rec.Conn.Close()
+	}()
+	time.Sleep(500 * time.Microsecond)
+	if msg := rec.checkCloseCallbacks(); msg != "" && !t.Violated() {
+		t.Violate("C05", "close_callbacks", "failed registration: %s (history %v)", msg, rec.history())
+	}
+	if n := len(audit.closesOf(rec.ID)); n != 1 && !t.Violated() {
+		t.Violate("C05", "descriptor_closes", "failed registration: descriptor %d closed %d time(s), want 1", rec.FD, n)
+	}
+	if n := audit.freeablesOf(opPtr, ownedSeq); n != 1 && !t.Violated() {
+		t.Violate("C05", "registration_release", "failed registration: poller slot released %d time(s), want 1", n)
+	}
+	t.Nontrivial, t.Sig = true, "register-fails"
 }
